@@ -309,7 +309,7 @@ def _mk_dpmem(s, c):
 
 
 # both ports read the content held before the edge (statement: "read returns the content before a same-cycle write")
-leaf(F_ST, 'DualPortSynchronousMemory', 'clock', props=('C09', 'C05'),
+leaf(F_ST, 'DualPortSynchronousMemory', 'clock', props=('C09',),
      make=_mk_dpmem, cfgs=lambda t: [dict(aw=aw, dw=dw) for aw in (1, 2) for dw in (1, 8)],
      array_fields={'data': dict(lo=0, hi=(1 << 64) - 1)},
      nxt={'readdata_a': 'self.data[self.read_address_a.value]', 'readdata_b': 'self.data[self.read_address_b.value]'},
